@@ -158,9 +158,24 @@ class ModelData:
         if "idx" not in self.params:
             kwargs.pop("idx")
 
-        for name, instance in self.params.items():
-            value = kwargs.pop(name, None)
-            instance.add(value)
+        added = []
+        try:
+            for name, instance in self.params.items():
+                value = kwargs.pop(name, None)
+                size = len(instance.v)
+                instance.add(value)
+                added.append((instance, size))
+        except Exception:
+            # a rejected device leaves the model as it was
+            for instance, size in added:
+                if isinstance(instance.v, list):
+                    del instance.v[size:]
+                else:
+                    instance.v = instance.v[:size]
+            del self.uid[idx]
+            self.n -= 1
+            raise
+
         if len(kwargs) > 0:
             logger.warning("%s: unused data %s", self.class_name, str(kwargs))
 
